@@ -31,6 +31,7 @@ type Disk struct {
 	Ops    atomic.Int64 // mutating calls since creation
 	OpLog  []string
 	LogOps bool
+	cur    *FS
 }
 
 func NewDisk() *Disk {
@@ -49,6 +50,8 @@ type FS struct {
 	dead    atomic.Bool
 	Fired   atomic.Bool
 	crashed chan struct{} // closed when the crash point is reached
+	hmu     sync.Mutex
+	handles map[*file_]struct{} // open files of this generation; the OS closes them when the process dies
 	once    sync.Once
 	Why     atomic.Value // string: what killed this generation
 }
@@ -79,13 +82,39 @@ func (d *Disk) Open() *FS {
 	d.mu.Lock()
 	defer d.mu.Unlock()
 	d.gen++
-	return &FS{d: d, gen: d.gen, crashed: make(chan struct{})}
+	d.releaseLocked()
+	d.cur = &FS{d: d, gen: d.gen, crashed: make(chan struct{}), handles: map[*file_]struct{}{}}
+	return d.cur
+}
+
+// releaseLocked closes the descriptors the previous generation still held, as the operating system does when a process
+// dies (nothing is synced by that). Without it the in-memory FS keeps treating those files as open and refuses to
+// remove them, which no real file system does for a dead process.
+func (d *Disk) releaseLocked() {
+	f := d.cur
+	if f == nil {
+		return
+	}
+	d.cur = nil
+	f.dead.Store(true)
+	f.hmu.Lock()
+	hs := f.handles
+	f.handles = map[*file_]struct{}{}
+	f.hmu.Unlock()
+	for h := range hs {
+		h.mu.Lock()
+		if h.closed.CompareAndSwap(false, true) {
+			_ = h.File.Close()
+		}
+		h.mu.Unlock()
+	}
 }
 
 // PowerLoss discards everything that was not synced (file contents and directory entries).
 func (d *Disk) PowerLoss() {
 	d.mu.Lock()
 	d.gen++
+	d.releaseLocked()
 	d.mu.Unlock()
 	d.mem.ResetToSyncedState()
 }
@@ -94,6 +123,7 @@ func (d *Disk) PowerLoss() {
 func (d *Disk) Kill() {
 	d.mu.Lock()
 	d.gen++
+	d.releaseLocked()
 	d.mu.Unlock()
 }
 
@@ -168,7 +198,7 @@ func (f *FS) Create(name string) (vfs.File, error) {
 	if err != nil {
 		return nil, err
 	}
-	return &file_{fs: f, File: file, name: name}, nil
+	return f.track(&file_{fs: f, File: file, name: name}), nil
 }
 
 func (f *FS) Link(oldname, newname string) error {
@@ -186,7 +216,7 @@ func (f *FS) Open(name string, opts ...vfs.OpenOption) (vfs.File, error) {
 	if err != nil {
 		return nil, err
 	}
-	return &file_{fs: f, File: file, name: name}, nil
+	return f.track(&file_{fs: f, File: file, name: name}), nil
 }
 
 func (f *FS) OpenDir(name string) (vfs.File, error) {
@@ -197,7 +227,7 @@ func (f *FS) OpenDir(name string) (vfs.File, error) {
 	if err != nil {
 		return nil, err
 	}
-	return &file_{fs: f, File: file, name: name, dir: true}, nil
+	return f.track(&file_{fs: f, File: file, name: name, dir: true}), nil
 }
 
 func (f *FS) Remove(name string) error {
@@ -229,7 +259,7 @@ func (f *FS) ReuseForWrite(oldname, newname string) (vfs.File, error) {
 	if err != nil {
 		return nil, err
 	}
-	return &file_{fs: f, File: file, name: newname}, nil
+	return f.track(&file_{fs: f, File: file, name: newname}), nil
 }
 
 func (f *FS) MkdirAll(dir string, perm os.FileMode) error {
@@ -269,9 +299,53 @@ func (f *FS) GetDiskUsage(p string) (vfs.DiskUsage, error) {
 
 type file_ struct {
 	vfs.File
-	fs   *FS
-	name string
-	dir  bool
+	fs     *FS
+	name   string
+	dir    bool
+	closed atomic.Bool
+	mu     sync.RWMutex // held (read) around every call into the in-memory file; the release at process death takes it
+}
+
+// use runs a call into the in-memory file unless the descriptor was released (then the caller is a thread of a dead
+// process and freezes).
+func (f *file_) use(fn func()) {
+	f.mu.RLock()
+	if f.closed.Load() {
+		f.mu.RUnlock()
+		halt()
+	}
+	fn()
+	f.mu.RUnlock()
+}
+
+func (f *file_) Stat() (fi os.FileInfo, err error) {
+	if !f.fs.alive() {
+		halt()
+	}
+	f.use(func() { fi, err = f.File.Stat() })
+	return
+}
+
+func (f *FS) track(h *file_) *file_ {
+	f.hmu.Lock()
+	f.handles[h] = struct{}{}
+	f.hmu.Unlock()
+	return h
+}
+
+func (f *file_) Close() error {
+	if !f.fs.alive() {
+		halt()
+	}
+	f.fs.hmu.Lock()
+	delete(f.fs.handles, f)
+	f.fs.hmu.Unlock()
+	f.mu.Lock()
+	defer f.mu.Unlock()
+	if !f.closed.CompareAndSwap(false, true) {
+		return nil
+	}
+	return f.File.Close()
 }
 
 func (f *file_) Write(p []byte) (int, error) {
@@ -290,12 +364,15 @@ func (f *file_) Write(p []byte) (int, error) {
 		}
 		cp := make([]byte, n)
 		copy(cp, p[:n])
-		_, _ = f.File.Write(cp)
+		f.use(func() { _, _ = f.File.Write(cp) })
 	}
 	if err := f.fs.step("write", f.name); err != nil {
 		return 0, err
 	}
-	return f.File.Write(p)
+	var n int
+	var err error
+	f.use(func() { n, err = f.File.Write(p) })
+	return n, err
 }
 
 func (f *file_) Sync() error {
@@ -306,21 +383,29 @@ func (f *file_) Sync() error {
 	if err := f.fs.step(kind, f.name); err != nil {
 		return err
 	}
-	return f.File.Sync()
+	var err error
+	f.use(func() { err = f.File.Sync() })
+	return err
 }
 
 func (f *file_) Read(p []byte) (int, error) {
 	if !f.fs.alive() {
 		halt()
 	}
-	return f.File.Read(p)
+	var n int
+	var err error
+	f.use(func() { n, err = f.File.Read(p) })
+	return n, err
 }
 
 func (f *file_) ReadAt(p []byte, off int64) (int, error) {
 	if !f.fs.alive() {
 		halt()
 	}
-	return f.File.ReadAt(p, off)
+	var n int
+	var err error
+	f.use(func() { n, err = f.File.ReadAt(p, off) })
+	return n, err
 }
 
 // RunCrashable runs op on its own goroutine, as the "process". It returns when op returns, when op panics
